@@ -1,13 +1,16 @@
 package protostub
 
 import (
+	"bytes"
 	"fmt"
+	"os/exec"
 
 	"google.golang.org/protobuf/proto"
 	"google.golang.org/protobuf/reflect/protodesc"
 	"google.golang.org/protobuf/reflect/protoreflect"
 	"google.golang.org/protobuf/reflect/protoregistry"
 	"google.golang.org/protobuf/types/descriptorpb"
+	"google.golang.org/protobuf/types/pluginpb"
 
 	// the well-known files must be linked in for protoregistry.GlobalFiles to resolve them
 	_ "google.golang.org/protobuf/types/known/anypb"
@@ -190,4 +193,41 @@ func (wellKnownResolver) FindFileByPath(p string) (protoreflect.FileDescriptor, 
 
 func (wellKnownResolver) FindDescriptorByName(n protoreflect.FullName) (protoreflect.Descriptor, error) {
 	return protoregistry.GlobalFiles.FindDescriptorByName(n)
+}
+
+// RunPlugin runs a real protoc plugin (protoc-gen-go) on the file as protoc would and returns the single file it generates.
+func RunPlugin(plugin string, f *File, parameter string) ([]byte, error) {
+	fd := Descriptor(f)
+	req := &pluginpb.CodeGeneratorRequest{FileToGenerate: []string{fd.GetName()}, Parameter: proto.String(parameter),
+		CompilerVersion: &pluginpb.Version{Major: proto.Int32(3), Minor: proto.Int32(21), Patch: proto.Int32(12)}}
+	for _, imp := range f.Imports {
+		d, err := protoregistry.GlobalFiles.FindFileByPath(imp.Path)
+		if err != nil {
+			return nil, fmt.Errorf("import %s: %v", imp.Path, err)
+		}
+		req.ProtoFile = append(req.ProtoFile, protodesc.ToFileDescriptorProto(d))
+	}
+	req.ProtoFile = append(req.ProtoFile, fd)
+	in, err := proto.Marshal(req)
+	if err != nil {
+		return nil, err
+	}
+	cmd := exec.Command(plugin)
+	cmd.Stdin = bytes.NewReader(in)
+	var out, se bytes.Buffer
+	cmd.Stdout, cmd.Stderr = &out, &se
+	if err := cmd.Run(); err != nil {
+		return nil, fmt.Errorf("%v: %s", err, se.String())
+	}
+	var resp pluginpb.CodeGeneratorResponse
+	if err := proto.Unmarshal(out.Bytes(), &resp); err != nil {
+		return nil, err
+	}
+	if resp.Error != nil {
+		return nil, fmt.Errorf("%s", resp.GetError())
+	}
+	if len(resp.File) != 1 {
+		return nil, fmt.Errorf("plugin returned %d files", len(resp.File))
+	}
+	return []byte(resp.File[0].GetContent()), nil
 }
